@@ -555,6 +555,26 @@ def unproduct(stmts: List[ast.stmt]) -> List[ast.stmt]:
     return out
 
 
+LOG_LEVELS = ("debug", "info", "warning", "warn", "error", "exception", "critical", "log")
+
+
+def strip_logging(stmts: List[ast.stmt]) -> List[ast.stmt]:
+    """QUIET: statements that only emit a log record (`logger.debug(..)`, `logging.info(..)`, any `<name>.<level>(..)` on a name that ends in
+    `logger` / `log` / `logging`) with effect-free arguments say nothing about what the function computes: dropped before the structural rules"""
+    out = []
+    for st in stmts:
+        if isinstance(st, ast.Expr) and isinstance(st.value, ast.Call) and isinstance(st.value.func, ast.Attribute) and st.value.func.attr in LOG_LEVELS \
+                and isinstance(st.value.func.value, ast.Name) and st.value.func.value.id.lower().lstrip("_").endswith(("logger", "log", "logging")) \
+                and not any(isinstance(x, (ast.Call, ast.Await, ast.Yield, ast.NamedExpr)) for a_ in list(st.value.args) + [k.value for k in st.value.keywords] for x in ast.walk(a_)):
+            continue
+        for fld in ("body", "orelse", "finalbody"):
+            v = getattr(st, fld, None)
+            if isinstance(v, list) and v and all(isinstance(x, ast.stmt) for x in v) and not isinstance(st, (ast.FunctionDef, ast.ClassDef)):
+                setattr(st, fld, strip_logging(v) or [ast.Pass()])
+        out.append(st)
+    return out
+
+
 def table_fuse(body: List[ast.stmt]) -> List[ast.stmt]:
     """TABLE-FUSE: a list built by one top-level loop, `L = []; [c = c0;] for a in K: <pure locals>; L.append(E); [c += d]`, and read by exactly one
     later loop `for [i,] r in [enumerate](L): S` (possibly nested in other loops): the reading loop becomes
@@ -1428,6 +1448,26 @@ class Normaliser:
             if lt is not None and isinstance(s, ast.Assign) and len(s.targets) == 1 and isinstance(s.targets[0], ast.Name) and isinstance(s.value, ast.Call) \
                     and isinstance(s.value.func, ast.Name) and s.value.func.id in getattr(self.resolve_call, "classes", {}):
                 lt[s.targets[0].id] = s.value.func.id          # `x = ClassName(...)`: methods of x resolve in ClassName
+            if isinstance(s, ast.For) and isinstance(s.iter, ast.Name) and not s.orelse:
+                # `g = self.gen(a); <effect-free statements>; for x in g:` -- the generator object is only created early; nothing it reads
+                # is written in between, so creating it at the loop is the same
+                nm = s.iter.id
+                k_def = next((k_ for k_ in range(len(out) - 1, -1, -1) if isinstance(out[k_], ast.Assign) and len(out[k_].targets) == 1
+                              and isinstance(out[k_].targets[0], ast.Name) and out[k_].targets[0].id == nm), None)
+                if k_def is not None and isinstance(out[k_def].value, ast.Call):
+                    hg = self.resolve_call(out[k_def].value)
+                    between = out[k_def + 1:]
+                    quiet = all(isinstance(b, ast.Assign) and not any(isinstance(x, (ast.Call, ast.Await, ast.Yield)) for x in ast.walk(b))
+                                and all(isinstance(t, ast.Name) for t in b.targets) for b in between)
+                    reads_between = {x.id for b in between for x in ast.walk(b) if isinstance(x, ast.Name)}
+                    uses = sum(1 for st_ in stmts for x in ast.walk(st_) if isinstance(x, ast.Name) and x.id == nm and isinstance(x.ctx, ast.Load))
+                    arg_names = {x.id for x in ast.walk(out[k_def].value) if isinstance(x, ast.Name)}
+                    stores_between = {t.id for b in between for t in b.targets}
+                    if hg is not None and any(isinstance(n_, ast.Yield) for n_ in ast.walk(hg)) and quiet and uses == 1 and nm not in reads_between \
+                            and not (arg_names & stores_between):
+                        s = copy.copy(s)
+                        s.iter = out[k_def].value
+                        del out[k_def]
             if isinstance(s, ast.For) and isinstance(s.iter, ast.Call):
                 h = self.resolve_call(s.iter)
                 if h is not None and any(isinstance(n, ast.Yield) for n in ast.walk(h)):
@@ -1981,6 +2021,7 @@ class Normaliser:
     # ---------------------------------------------------------------- driver
     def function(self, fn: ast.FunctionDef) -> ast.FunctionDef:
         out = copy.deepcopy(fn)
+        out.body = strip_logging(out.body)
         self.caller_names = {n.id for n in ast.walk(fn) if isinstance(n, ast.Name)} | {a.arg for a in ast.walk(fn) if isinstance(a, ast.arg)}
         body = [s for s in out.body if not (isinstance(s, ast.Expr) and isinstance(s.value, ast.Constant) and isinstance(s.value.value, str))]
         body = unzip_map(unproduct(body))
